@@ -156,3 +156,42 @@ package builder
 //@   ensures child-removed-always: removedall(d.parentDirectory) == 1
 //@   ensures parent-closed-always: dirclosed(d.parentDirectory) == 1
 //@   ensures child-closed: dirclosed(d.BuildDirectory) == 1
+
+// ---------------------------------------------------------------------------
+// Output paths and output directory Trees (C10)
+//
+// Normalised output locations never leave the input root; every output path
+// is resolved on a private copy of the working directory; a Tree lists each
+// distinct directory once, and every directory a parent refers to is in it.
+
+//@ func (*outputNodePath).OnUp
+//@   props C10
+//@   ensures escaping-the-input-root-is-rejected: old(len(onp.components)) == 0 ==> r1 != nil && r0 == nil && len(onp.components) == 0
+//@   ensures one-level-up: old(len(onp.components)) > 0 ==> r1 == nil && len(onp.components) == old(len(onp.components)) - 1
+//@ func (*outputNodePath).OnDirectory
+//@   props C10
+//@   ensures one-level-down: r1 == nil && len(onp.components) == old(len(onp.components)) + 1 && onp.components[len(onp.components)-1] == name
+//@ func (*outputNodePath).OnTerminal
+//@   props C10
+//@   ensures one-level-down: r1 == nil && r0 == nil && len(onp.components) == old(len(onp.components)) + 1 && onp.components[len(onp.components)-1] == name
+
+//@ func (*OutputHierarchy).lookup
+//@   props C10
+//@   at call Resolve#1 assert output-path-is-resolved-on-a-private-copy-of-the-working-directory:
+//@             len(outputPath.components) == len(workingDirectory.components) &&
+//@             (len(workingDirectory.components) > 0 ==> !samearray(outputPath.components, workingDirectory.components))
+//@   at call Resolve#1 assert copy-has-the-length-of-the-working-directory: len(outputPath.components) == len(workingDirectory.components)
+
+// Directories of one Tree: the list (Tree order, children before parents) and
+// the digest map describe the same set; a directory that was uploaded is in
+// the Tree, so every child a parent refers to is present, exactly once.
+//@ func (*uploadOutputDirectoryState).uploadDirectory
+//@   props C10
+//@   requires list-and-map-describe-the-same-directories: len(s.directories) == len(s.directoriesSeen) && s.directoriesSeen != nil
+//@   loop 0 invariant len(s.directories) == len(s.directoriesSeen) && s.directoriesSeen != nil && len(s.directories) >= old(len(s.directories)) && s == old(s)
+//@   ensures list-and-map-describe-the-same-directories: len(s.directories) == len(s.directoriesSeen)
+//@   ensures uploaded-directory-is-part-of-the-tree: r1 == nil ==> r0 in s.directoriesSeen
+//@   ensures tree-only-grows: len(s.directories) >= old(len(s.directories))
+//@ func (*uploadOutputsState).uploadOutputDirectoryEntered
+//@   props C10
+//@   at call uploadDirectory#1 assert every-tree-starts-empty: len(dState.directories) == 0 && len(dState.directoriesSeen) == 0
